@@ -27,14 +27,45 @@ class RealKa:
         self.ex = prog.Exec(opts)
         self.ex.do(['start'])
         self.ex.do(['settle'])
+        self.now = 0
+        self.last = 0            # time of the last KEEPALIVE from the server (connect counts)
+        self.flagged = 0         # respond-flagged KEEPALIVEs the server sent
+        self.to_at_last = 0      # number of time-out callbacks seen when the last KEEPALIVE arrived
 
     def tick(self):
         self.ex.do(['advance', UNIT_MS])
         self.ex.do(['settle'])
+        self.now += 1
 
     def peer_ka(self, respond):
+        o = self.observe()
+        self.to_at_last = o['timeouts']
+        self.last = self.now
+        if respond:
+            self.flagged += 1
         self.ex.do(['peer_keepalive', 8, bool(respond)])
         self.ex.do(['settle'])
+
+    def oracle(self):
+        """the C15 invariants of KeepAlive.tla evaluated on what the real client did (the aftermath of a time-out - how
+        many more frames a client that has declared the server dead still writes, when it closes - is not part of C15)"""
+        o = self.observe()
+        L, P = self.L, self.P
+        for g in o['gaps']:
+            if g <= L * UNIT_MS:
+                return ('C15.no_false_timeout', 'on_keepalive_timeout invoked with %d ms since the last KEEPALIVE, maximum lifetime %d ms' % (g, L * UNIT_MS))
+        if o['timeouts'] > self.to_at_last and self.now - self.last <= L:
+            return ('C15.no_false_timeout', 'on_keepalive_timeout invoked at time %d, last KEEPALIVE at %d, lifetime %d' % (self.now, self.last, L))
+        if o['closes'] == 0 and self.now - self.last >= 2 * L and o['timeouts'] <= self.to_at_last:
+            return ('C15.timeout_detected', 'server silent since %d, now %d (lifetime %d): on_keepalive_timeout not invoked' % (self.last, self.now, L))
+        if o['timeouts'] == 0 and o['closes'] == 0:
+            if o['txKa'] != self.now // P:
+                return ('C15.periodic', '%d respond-flagged KEEPALIVEs written by time %d, period %d' % (o['txKa'], self.now, P))
+            if o['txEcho'] != self.flagged:
+                return ('C15.echo_exactly_once_same_data_flag_cleared', '%d echoes written for %d respond-flagged KEEPALIVEs' % (o['txEcho'], self.flagged))
+        if o['txEcho'] > self.flagged:
+            return ('C15.no_echo_without_flag', '%d echoes written for %d respond-flagged KEEPALIVEs' % (o['txEcho'], self.flagged))
+        return None
 
     def observe(self):
         ka = echo = to = cl = 0
@@ -81,18 +112,14 @@ def _apply(real, name, args, before):
     return None
 
 
-_CLAUSE = {'txKa': 'C15.periodic', 'txEcho': 'C15.echo_exactly_once_same_data_flag_cleared', 'timeouts': 'C15.timeout_callbacks_match_spec',
-           'closes': 'C15.close_after_timeout_matches_spec', 'gaps': 'C15.no_false_timeout'}
-
-
 def _compare(real, exp, obs):
+    bad = real.oracle()
+    if bad:
+        return bad
     o = real.observe()
     for key in ('timeouts', 'gaps', 'txKa', 'txEcho', 'closes'):
         if o[key] != exp[key]:
-            clause = _CLAUSE[key]
-            if key == 'timeouts':
-                clause = 'C15.timeout_detected' if o[key] < exp[key] else 'C15.no_false_timeout'
-            return (clause, 'at time %d (last arrival %d): %s is %s, the specification says %s' % (exp['now'], exp['last'], key, o[key], exp[key]))
+            return ('DRIFT', 'at time %d (last arrival %d): %s is %s, the specification says %s' % (exp['now'], exp['last'], key, o[key], exp[key]))
     return None
 
 
